@@ -278,6 +278,16 @@ def granularity_obligation(chk, prop):
     return good
 
 
+def extra_suffixes(prop):
+    import glob, re
+    out = []
+    for f in sorted(glob.glob(os.path.join(vlib.COQ, "Properties", prop + "?.v"))):
+        m = re.match(r"^%s([A-Z])\.v$" % prop, os.path.basename(f))
+        if m:
+            out.append(m.group(1))
+    return out
+
+
 def run_property(chk, prop, note=None):
     t0 = time.time()
     thorough = chk.tier == "thorough"
@@ -285,8 +295,9 @@ def run_property(chk, prop, note=None):
     proof_ok, plog = True, ""
     if names:
         proof_ok, plog = vlib.standard_proof_stage(chk, prop, names)
-        # history-level lifts live in Properties/<prop>H.v (and <prop>L.v)
-        for suffix in ("H", "L"):
+        # further statement files: Properties/<prop>H.v (history-level lifts),
+        # <prop>L.v (liveness), and any other Properties/<prop><LETTER>.v
+        for suffix in extra_suffixes(prop):
             hnames = theorem_names(prop + suffix)
             if not hnames:
                 continue
@@ -303,7 +314,7 @@ def run_property(chk, prop, note=None):
     else:
         chk.coverage["theorems"] = "Properties/%s.v not present: no theorem is claimed by this run" % prop
     if thorough and names and proof_ok:
-        for mod in (prop, prop + "H", prop + "L"):
+        for mod in [prop] + [prop + x for x in extra_suffixes(prop)]:
             if not theorem_names(mod):
                 continue
             cok, csum = vlib.coqchk(mod)
